@@ -364,13 +364,25 @@ func sortKey(s Sort) string {
 	return sanitize(strings.NewReplacer("(", "", ")", "", " ", "_").Replace(s))
 }
 
+// classKey: the heap-class key of a value type.  With mathematical integers both Go integers and references
+// have sort Int; they are kept in separate classes (an []int and an []*int never share a backing array).
+func (c *Ctx) classKey(t types.Type) string {
+	s := c.sortOf(t)
+	if c.mathInts && s == SInt {
+		if b, ok := types.Unalias(t).Underlying().(*types.Basic); ok && b.Info()&types.IsInteger != 0 {
+			return "MInt"
+		}
+	}
+	return sortKey(s)
+}
+
 func (c *Ctx) elemClass(elem types.Type) string {
 	s := c.sortOf(elem)
-	return c.class("E_"+sortKey(s), fmt.Sprintf("(Array Int (Array %s %s))", c.intSort(64), s))
+	return c.class("E_"+c.classKey(elem), fmt.Sprintf("(Array Int (Array %s %s))", c.intSort(64), s))
 }
 func (c *Ctx) cellClass(elem types.Type) string {
 	s := c.sortOf(elem)
-	return c.class("C_"+sortKey(s), fmt.Sprintf("(Array Int %s)", s))
+	return c.class("C_"+c.classKey(elem), fmt.Sprintf("(Array Int %s)", s))
 }
 func (c *Ctx) mapDomClass(m *types.Map) string {
 	k, v := c.sortOf(m.Key()), c.sortOf(m.Elem())
